@@ -138,19 +138,26 @@ Proof.
   intros key Hk. apply (proj1 (keys_ins_all0 _ _)) in Hk. simpl in Hk. destruct Hk as [<-|[<-|[]]]; reflexivity.
 Qed.
 
-Lemma f_spec_canon sp x y : f_spec sp x = Ok y -> canon y.
+(* what a node emits: in canonical form, or (kind 4: the input map under a key) in one chunk *)
+Definition okout (sp : nspec) (y : val) : Prop := N.eqb (ns_kind sp) 4 = true \/ canon y.
+
+Lemma f_spec_okout sp x y : f_spec sp x = Ok y -> okout sp y.
 Proof.
-  unfold f_spec.
-  destruct (ns_kind sp) as [|[[p|p|]|[p|p|]|]], x; try discriminate; intros H; inversion H; simpl; auto.
-  - split; [repeat constructor; intros ? []|apply mcons_single].
-  - split; [apply sorted_ins_all; constructor|apply mcons_spec, flat_Cons, flat_pair].
+  unfold okout, f_spec.
+  destruct (ns_kind sp) as [|[[p|p|]|[p|[p|p|]|]|]], x; try discriminate; intros H; inversion H; simpl; auto.
+  - right. split; [repeat constructor; intros ? []|apply mcons_single].
+  - right. split; [apply sorted_ins_all; constructor|apply mcons_spec, flat_Cons, flat_pair].
 Qed.
 
 Lemma vsconcat_bad_in s e : In (Bad e) s -> failed (vsconcat s).
 Proof. intros H. apply vsconcat_bad. exists e. exact H. Qed.
 
-Lemma emit_ok sp y : N.eqb (ns_fail sp) 2 = false -> canon y -> vsconcat (emit sp y) = Ok y.
-Proof. intros Hf Hc. unfold emit. rewrite Hf. apply split_val_concat, Hc. Qed.
+Lemma emit_ok sp y : N.eqb (ns_fail sp) 2 = false -> okout sp y -> vsconcat (emit sp y) = Ok y.
+Proof.
+  intros Hf [E|Hc]; unfold emit; rewrite Hf.
+  - rewrite E. reflexivity.
+  - destruct (N.eqb (ns_kind sp) 4); [reflexivity|apply split_val_concat, Hc].
+Qed.
 
 Lemma emit_fails sp y : N.eqb (ns_fail sp) 2 = true -> failed (vsconcat (emit sp y)).
 Proof.
@@ -162,7 +169,8 @@ Lemma emit_nonnil sp y : emit sp y <> [].
 Proof.
   unfold emit. destruct (N.eqb (ns_fail sp) 2).
   - intros H. apply app_eq_nil in H as [_ H]. discriminate.
-  - intros H. apply map_eq_nil in H. exact (split_val_nonnil _ _ H).
+  - intros H. apply map_eq_nil in H. destruct (N.eqb (ns_kind sp) 4); [discriminate|].
+    exact (split_val_nonnil _ _ H).
 Qed.
 
 (* ------------------------------------------------------------------ the chunk-by-chunk transformer *)
@@ -353,12 +361,95 @@ Proof.
 Qed.
 
 Lemma spec_wf_live sp : spec_wf sp = true -> ns_T sp = true -> is_live sp = true ->
-  ns_kind sp = 0%N \/ (ns_kind sp = 2%N /\ ns_k1 sp <> ns_k2 sp).
+  ns_kind sp = 0%N \/ (ns_kind sp = 2%N /\ ns_k1 sp <> ns_k2 sp) \/ ns_kind sp = 4%N.
 Proof.
   unfold spec_wf. intros H HT HL. apply andb_prop in H as (_ & H). rewrite HT, HL in H. simpl in H.
   pose proof HL as HL'. unfold is_live in HL'. apply andb_prop in HL' as (_ & HK).
-  apply Bool.orb_true_iff in HK as [HK|HK]; apply N.eqb_eq in HK; [left; exact HK|right].
+  apply Bool.orb_true_iff in HK as [HK|HK]; [apply Bool.orb_true_iff in HK as [HK|HK]|];
+    apply N.eqb_eq in HK; [left; exact HK|right; left|right; right; exact HK].
   split; auto. rewrite HK in H. simpl in H. apply Bool.negb_true_iff, N.eqb_neq in H. exact H.
+Qed.
+
+(* ------------------------------------------------------------------ the chunk-by-chunk transformer of kind 4 *)
+Lemma stream_shapeM (s : stream val) :
+  (exists ms, s = sVM ms) \/ (exists it, In it s /\ forall m, it <> Val (VM m)).
+Proof.
+  induction s as [|it s IH].
+  - left. exists []. reflexivity.
+  - destruct it as [[c|m]|e].
+    + right. exists (Val (VS c)). split; [left; reflexivity|discriminate].
+    + destruct IH as [(ms & ->)|(it & Hin & Hn)].
+      * left. exists (m :: ms). reflexivity.
+      * right. exists it. split; [right; exact Hin|exact Hn].
+    + right. exists (Bad e). split; [left; reflexivity|discriminate].
+Qed.
+
+Lemma fw4_sVM sp ms : map (fw4 sp) (sVM ms) = map Val (map VM (map (nest (ns_k1 sp)) ms)).
+Proof. unfold sVM. rewrite !map_map. reflexivity. Qed.
+
+Lemma live_T4_maps sp ms : N.eqb (ns_fail sp) 2 = false ->
+  live_T4 sp (sVM ms) = sVM (map (nest (ns_k1 sp)) ms).
+Proof. intros Hf. unfold live_T4. rewrite Hf, fw4_sVM, upto_bad_vals. cbn [fst]. symmetry. apply sVM_vals. Qed.
+
+Lemma live_T4_bad_input sp s it : N.eqb (ns_fail sp) 2 = false ->
+  In it s -> (forall m, it <> Val (VM m)) -> has_bad (live_T4 sp s).
+Proof.
+  intros Hf Hin Hn. unfold live_T4. rewrite Hf.
+  assert (Hb : exists e, In (Bad e) (map (fw4 sp) s)).
+  { destruct it as [[c|m]|e].
+    - exists e_type. apply (in_map (fw4 sp)) in Hin. exact Hin.
+    - exfalso. eapply Hn; reflexivity.
+    - exists e. apply (in_map (fw4 sp)) in Hin. exact Hin. }
+  destruct Hb as (e & Hb). destruct (upto_bad_bad _ _ Hb) as (r & e' & -> & Hr). exists e'. exact Hr.
+Qed.
+
+Lemma f_spec4_not_maps sp s it x : ns_kind sp = 4%N ->
+  In it s -> (forall m, it <> Val (VM m)) -> vsconcat s = Ok x -> failed (f_spec sp x).
+Proof.
+  intros Hk Hin Hn E.
+  apply vsconcat_ok in E as [(ss & _ & -> & ->)|(ms & _ & -> & _ & _)].
+  - unfold f_spec. rewrite Hk. apply failed_Err.
+  - exfalso. apply in_sVM in Hin as (a & ->). eapply Hn; reflexivity.
+Qed.
+
+Lemma live_T4_agree sp st : N.eqb (ns_fail sp) 2 = false -> ns_kind sp = 4%N -> st <> [] ->
+  agree (vsconcat (live_T4 sp st)) (res_bind (vsconcat st) (f_spec sp)).
+Proof.
+  intros Hf Hk Hst. destruct (stream_shapeM st) as [(ms & ->)|(it & Hin & Hn)].
+  - assert (Hms : ms <> []) by (destruct ms; [exfalso; apply Hst; reflexivity|discriminate]).
+    rewrite live_T4_maps by exact Hf.
+    rewrite !vsconcat_sVM by (destruct ms; [congruence|discriminate]).
+    rewrite mok_nest, mval_nest by exact Hms.
+    destruct (mok ms); cbn [res_bind]; [|exact I].
+    unfold f_spec. rewrite Hk. reflexivity.
+  - apply agree_failed; [apply vsconcat_bad; eapply live_T4_bad_input; eauto|].
+    destruct (vsconcat st) as [x| |] eqn:E; cbn [res_bind]; [|apply failed_Err|apply failed_Panic].
+    eapply f_spec4_not_maps; eauto.
+Qed.
+
+Lemma live_T4_nonnil sp s : s <> [] -> live_T4 sp s <> [].
+Proof.
+  intros Hs. unfold live_T4. destruct (N.eqb (ns_fail sp) 2); [discriminate|].
+  destruct s as [|it s]; [congruence|]. cbn [map upto_bad]. destruct (fw4 sp it); [|discriminate].
+  destruct (upto_bad (map (fw4 sp) s)). discriminate.
+Qed.
+
+Lemma live_T4_sound sp s : s <> [] -> sound s -> sound (live_T4 sp s).
+Proof.
+  intros Hs Hso. destruct (N.eqb (ns_fail sp) 2) eqn:Hf.
+  - left. exists e_node. unfold live_T4. rewrite Hf. left. reflexivity.
+  - destruct (stream_shapeM s) as [(ms & ->)|(it & Hin & Hn)].
+    + assert (Hms : ms <> []) by (destruct ms; [exfalso; apply Hs; reflexivity|discriminate]).
+      rewrite live_T4_maps by exact Hf.
+      apply sound_cases in Hso as [(e & Hb)|[(ss & _ & E)|(ms' & _ & E & Hok)]].
+      * apply in_sVM in Hb as (a & Ha). discriminate.
+      * exfalso. destruct ms as [|m ms]; [congruence|]. destruct ss; discriminate.
+      * assert (ms' = ms).
+        { clear -E. revert ms' E. induction ms as [|m ms IH]; intros [|m' ms'] E; try discriminate; auto.
+          inversion E. f_equal. apply IH. assumption. }
+        subst ms'. right. eexists. apply vsconcat_sVM_ok; [destruct ms; [congruence|discriminate]|].
+        rewrite mok_nest; auto.
+    + left. eapply live_T4_bad_input; eauto.
 Qed.
 
 Lemma agree_of_eq {X} (a b : res X) : a = b -> agree a b.
@@ -378,20 +469,25 @@ Proof.
     { intros r. unfold spec_fun. rewrite Hf. reflexivity. }
     rewrite Esf.
     destruct (is_live sp) eqn:HL; rewrite vsconcatR_Ok.
-    + destruct (stream_shape st) as [(cs & ->)|(it & Hin & Hn)].
+    + destruct (spec_wf_live sp Hwf HT HL) as [Hk|[(Hk & Hne)|Hk]].
+      3:{ rewrite Hk. cbn [N.eqb Pos.eqb]. apply live_T4_agree; auto. }
+      all: rewrite Hk; cbn [N.eqb Pos.eqb];
+        destruct (stream_shape st) as [(cs & ->)|(it & Hin & Hn)].
       * assert (Hcs : cs <> []) by (destruct cs; [exfalso; apply Hst; reflexivity|discriminate]).
-        apply agree_of_eq.
-        destruct (spec_wf_live sp Hwf HT HL) as [Hk|(Hk & Hne)].
-        -- apply live_T_kind0; auto.
-        -- apply live_T_kind2; auto.
+        apply agree_of_eq. apply live_T_kind0; auto.
       * apply agree_failed; [eapply live_T_bad_input; eauto|].
         destruct (vsconcat st) as [x| |] eqn:E; cbn [res_bind];
           [|apply failed_Err|apply failed_Panic].
         eapply f_spec_not_strings; eauto.
-        destruct (spec_wf_live sp Hwf HT HL) as [Hk|(Hk & _)]; auto.
+      * assert (Hcs : cs <> []) by (destruct cs; [exfalso; apply Hst; reflexivity|discriminate]).
+        apply agree_of_eq. apply live_T_kind2; auto.
+      * apply agree_failed; [eapply live_T_bad_input; eauto|].
+        destruct (vsconcat st) as [x| |] eqn:E; cbn [res_bind];
+          [|apply failed_Err|apply failed_Panic].
+        eapply f_spec_not_strings; eauto.
     + destruct (vsconcat st) as [x| |]; cbn [res_bind].
       * destruct (f_spec sp x) as [y| |] eqn:Ey.
-        -- rewrite emit_ok; [apply agree_refl|exact Hf2|eapply f_spec_canon; eauto].
+        -- rewrite emit_ok; [apply agree_refl|exact Hf2|eapply f_spec_okout; eauto].
         -- exact I.
         -- exact I.
       * exact I.
@@ -403,7 +499,9 @@ Proof.
     assert (Hf2 : N.eqb (ns_fail sp) 2 = true) by (rewrite Hf; reflexivity).
     apply agree_failed; [|apply failed_spec_fun_bind; rewrite Hf; reflexivity].
     destruct (is_live sp); rewrite vsconcatR_Ok.
-    + unfold live_T. rewrite Hf2. apply (vsconcat_bad_in _ e_node). right. left. reflexivity.
+    + destruct (N.eqb (ns_kind sp) 4).
+      * unfold live_T4. rewrite Hf2. apply (vsconcat_bad_in _ e_node). left. reflexivity.
+      * unfold live_T. rewrite Hf2. apply (vsconcat_bad_in _ e_node). right. left. reflexivity.
     + destruct (vsconcat st) as [x| |]; try (eapply vsconcat_bad_in; left; reflexivity).
       destruct (f_spec sp x) as [y| |]; try (eapply vsconcat_bad_in; left; reflexivity).
       apply emit_fails, Hf2.
@@ -423,7 +521,7 @@ Proof.
       inversion Es. rewrite Hf, Esf. cbn [N.eqb].
       destruct (f_spec sp x) as [y| |] eqn:Ey; cbn [res_bind sconcatR]; try exact I.
       change (agree (vsconcat (emit sp y)) (Ok y)).
-      rewrite emit_ok; [apply agree_refl|rewrite Hf; reflexivity|eapply f_spec_canon; eauto].
+      rewrite emit_ok; [apply agree_refl|rewrite Hf; reflexivity|eapply f_spec_okout; eauto].
     + intros c Ec st Hst. unfold node_of_spec in Ec. cbn [nC] in Ec. destruct (ns_C sp); [|discriminate].
       inversion Ec. rewrite Hf. cbn [N.eqb].
       apply agree_of_eq. fold (vsconcat st). destruct (vsconcat st); cbn [res_bind]; auto.
@@ -468,26 +566,27 @@ Proof.
   destruct (ns_I sp), (ns_S sp), (ns_C sp), (ns_T sp); simpl in *; auto.
 Qed.
 
-Lemma emit_sound sp y : canon y -> sound (emit sp y).
+Lemma emit_sound sp y : okout sp y -> sound (emit sp y).
 Proof.
   intros Hc. destruct (N.eqb (ns_fail sp) 2) eqn:Hf.
   - left. exists e_node. unfold emit. rewrite Hf. apply in_or_app. right. left. reflexivity.
   - right. exists y. apply emit_ok; auto.
 Qed.
 
-Lemma live_T_sound sp s : spec_wf sp = true -> ns_T sp = true -> is_live sp = true -> s <> [] ->
-  sound (live_T sp s).
+Lemma live_T_sound sp s : spec_wf sp = true -> ns_T sp = true -> is_live sp = true ->
+  N.eqb (ns_kind sp) 4 = false -> s <> [] -> sound (live_T sp s).
 Proof.
-  intros Hwf HT HL Hs. destruct (N.eqb (ns_fail sp) 2) eqn:Hf.
+  intros Hwf HT HL H4 Hs. destruct (N.eqb (ns_fail sp) 2) eqn:Hf.
   - left. exists e_node. unfold live_T. rewrite Hf. right. left. reflexivity.
   - destruct (stream_shape s) as [(cs & ->)|(it & Hin & Hn)].
     + assert (Hcs : cs <> []) by (destruct cs; [exfalso; apply Hs; reflexivity|discriminate]).
       right.
-      destruct (spec_wf_live sp Hwf HT HL) as [Hk|(Hk & Hne)].
+      destruct (spec_wf_live sp Hwf HT HL) as [Hk|[(Hk & Hne)|Hk]].
       * rewrite (live_T_kind0 sp Hf cs Hk Hcs), vsconcat_sVS by exact Hcs. cbn [res_bind].
         unfold f_spec. rewrite Hk. eauto.
       * rewrite (live_T_kind2 sp Hf cs Hk Hne Hcs), vsconcat_sVS by exact Hcs. cbn [res_bind].
         unfold f_spec. rewrite Hk. eauto.
+      * rewrite Hk in H4. discriminate.
     + left. eapply live_T_bad_input_bad; eauto.
 Qed.
 
@@ -497,18 +596,20 @@ Proof.
   - intros f Ef x o. unfold node_of_spec in Ef. cbn [nS] in Ef. destruct (ns_S sp); [|discriminate].
     inversion Ef. destruct (N.eqb (ns_fail sp) 1); [discriminate|].
     destruct (f_spec sp x) eqn:Ey; cbn [res_bind]; try discriminate.
-    intros H. inversion H. split; [apply emit_nonnil|eapply emit_sound, f_spec_canon; eauto].
-  - intros f Ef s o Hs _. unfold node_of_spec in Ef. cbn [nT] in Ef. destruct (ns_T sp) eqn:HT; [|discriminate].
+    intros H. inversion H. split; [apply emit_nonnil|eapply emit_sound, f_spec_okout; eauto].
+  - intros f Ef s o Hs Hso. unfold node_of_spec in Ef. cbn [nT] in Ef. destruct (ns_T sp) eqn:HT; [|discriminate].
     inversion Ef. destruct (N.eqb (ns_fail sp) 1); [discriminate|].
     destruct (is_live sp) eqn:HL.
-    + intros H. inversion H. split.
-      * unfold live_T. destruct (N.eqb (ns_fail sp) 2); [discriminate|].
-        destruct (upto_bad _). discriminate.
-      * apply live_T_sound; auto.
+    + intros H. inversion H. destruct (N.eqb (ns_kind sp) 4) eqn:H4.
+      * split; [apply live_T4_nonnil, Hs|apply live_T4_sound; auto].
+      * split.
+        -- unfold live_T. destruct (N.eqb (ns_fail sp) 2); [discriminate|].
+           destruct (upto_bad _). discriminate.
+        -- apply live_T_sound; auto.
     + intros H. inversion H.
       destruct (vsconcat s); try (split; [discriminate|left; eexists; left; reflexivity]).
       destruct (f_spec sp a) eqn:Ey; try (split; [discriminate|left; eexists; left; reflexivity]).
-      split; [apply emit_nonnil|eapply emit_sound, f_spec_canon; eauto].
+      split; [apply emit_nonnil|eapply emit_sound, f_spec_okout; eauto].
 Qed.
 
 Theorem spec_node_ok sp : spec_wf sp = true -> node_ok (node_of_spec sp).
@@ -757,4 +858,13 @@ Lemma wfn_prog_in_domain :
      = Ok (VS "n5{ak=n4{ah=n3{af/;af.ac=n1<ab;af.ad=ab>;ag/;ag.ai=n2<ab;ag.aj=ab>;};};}"%string)
   /\ vsconcatR (g_transform seq_mrg (compile_sprog wfn_prog) (map Val [VS "a"%string; VS "b"%string]))
      = g_invoke (compile_sprog wfn_prog) (VS "ab"%string).
+Proof. vm_compute. repeat split. Qed.
+
+(* non-vacuity with a node of kind 4 that forwards the map chunks it receives under a key *)
+Lemma wrap_prog_in_domain :
+  sprog_wf wrap_prog = true
+  /\ dom_ok (compile_sprog wrap_prog) (VS "ab"%string) = true
+  /\ g_invoke (compile_sprog wrap_prog) (VS "ab"%string) = Ok (VS "n3{af/;af.ac=n1<ab;af.ad=ab>;}"%string)
+  /\ vsconcatR (g_transform seq_mrg (compile_sprog wrap_prog) (map Val [VS "a"%string; VS "b"%string]))
+     = g_invoke (compile_sprog wrap_prog) (VS "ab"%string).
 Proof. vm_compute. repeat split. Qed.
